@@ -51,6 +51,9 @@ def make_units(profile, seed, tier, index, opts):
         check_wellformed(g)
     else:
         g = ggen.Gen(rnd, ggen.profile(profile)).grammar()
+    huge = bool(opts.get("huge_inputs")) and fixed_inputs is None and index % int(opts.get("huge_every", 6)) == 0
+    if huge:
+        g = huge_wrap(g, random.Random("%s/%s/%d/huge" % (seed, profile, index)))
     variants = [("base", g)]
     if opts.get("memo_variants"):
         variants = memo_variants(g, rnd)
@@ -75,7 +78,8 @@ def make_units(profile, seed, tier, index, opts):
         cases_by_rule[r.name] = inputs_mod.inputs_for(
             g, r.name, irnd, n_sent=t["n_sent"], n_total=t["n_inputs"],
             ws_inject=opts.get("ws_inject", False), unicode_heavy=opts.get("unicode_heavy", False),
-            long_inputs=opts.get("long_inputs", False))
+            long_inputs=opts.get("long_inputs", False),
+            huge_inputs=huge and r.name == HUGE_RULE)
     for vi, (vname, vg) in enumerate(variants):
         text = grender.render(vg, lay if opts.get("random_layout", True) and lay.random() < 0.5 else None, level=2)
         if suite_text is not None:
@@ -83,6 +87,30 @@ def make_units(profile, seed, tier, index, opts):
         units.append({"base": index, "variant": vname, "grammar": vg, "text": text,
                       "inputs": cases_by_rule, "profile": profile, "step_cap": step_cap})
     return units
+
+
+HUGE_RULE = "HugeWrap"
+
+
+def huge_wrap(g, rnd):
+    """append `@export HugeWrap = { hh:Start }` over a non-nullable exported rule: the rule that the very long inputs
+    (several KB, beyond 64 KiB) are written for, so that they are consumed to the end instead of after one item"""
+    import copy
+    from gast import compute_nullable, Rule, Cho, Seq, Clo, Ref, Invalid
+    try:
+        nul = compute_nullable(g)
+        cands = [r for r in g.exported() if not nul.get(r.name, True) and not r.has("leftrec")]
+        if not cands or g.rule(HUGE_RULE) is not None:
+            return g
+        start = rnd.choice(cands)
+        dirs = ["export"] + (["position"] if rnd.random() < 0.4 else []) + (["memoize"] if rnd.random() < 0.3 else [])
+        g2 = copy.copy(g)
+        g2.rules = list(g.rules) + [Rule(HUGE_RULE, Cho([Seq([Clo(Cho([Seq([Ref(start.name, field="hh")])]))])]), dirs)]
+        check_wellformed(g2)
+        check_types(g2)
+        return g2
+    except Invalid:
+        return g
 
 
 _suite_cache = {}
